@@ -3,11 +3,14 @@ import St4sd.Model.StatusFile
 import St4sd.Lemmas.C14Fs
 import St4sd.Lemmas.C14Escape
 import St4sd.Lemmas.C14Status
+import St4sd.Lemmas.C14Conc
+import St4sd.Lemmas.C14Sched
 /-!
 # C14 — Experiment state files are updated atomically and read back faithfully
 
 Part 1 (atomicity): statements over *all* traces, all numbers and sizes of writes, all crash points.
 Part 2 (fidelity): the status file encoding round-trips, for every history of updates.
+Part 3 (several writers): statements over *all* interleavings of concurrent updates of one file.
 -/
 namespace St4sd.C14
 open St4sd.FsAtomic
@@ -276,5 +279,115 @@ example : dataClean [(['c', 'o', 's', 't'], ['0']),
     (errKey, ['C', ':', '\\', 't', '\n', '=', '%', 'é', '€', '\x00', '"'])] = true := by decide
 example : decode (encode [(errKey, ['a', '\\', '\n', 'b'])]) = some [(errKey, ['a', '\\', '\n', 'b'])] := by decide
 example : finalData [(errKey, ['x'])] [[(errKey, ['\\'])], [], []] = [(errKey, ['\\'])] := by decide
+
+/-! ## Part 3: concurrent updates of one file (several writers, every interleaving)
+
+`Status.update` takes no lock and is called on one `Status` object by the StatusMonitor thread and by the
+main thread of `elaunch` (and by other processes: `ewrap`).  Model: `St4sd.FsConc` (names, files, open
+handles with positions); a trace is the interleaving of the file operations of all the writers. -/
+section Concurrent
+open St4sd.FsConc
+
+/-- **Interleaved atomic updates are safe.**  If the interleaved trace follows the protocol `concSafe`
+— every update stages its text in a path that differs from the target and from the staging path of every
+other update in flight, writes only through its own handle, closes, and only a closed staging file is
+renamed over the target; nothing else names the target — then after *every* prefix of the trace (every
+crash point of every interleaving, any number of writers, writes and updates) the target holds its
+initial content or the complete text (all the writes, from open to close) of one update that the prefix
+has installed. -/
+theorem interleaved_atomic_updates_safe (t : Path) (evs : List Ev) (s : St) (hwf : WF s)
+    (h : concSafe t evs = true) (n : Nat) :
+    content (crun (evs.take n) s) t = content s t ∨
+    ∃ v ∈ installedBy t (evs.take n), content (crun (evs.take n) s) t = some v := by
+  unfold concSafe at h
+  cases hc : chkRun t chk0 evs with
+  | none => rw [hc] at h; exact absurd h (by simp)
+  | some c' =>
+    obtain ⟨c1, h1, _⟩ := chkRun_take t evs chk0 c' n hc
+    have inv := inv_run t (content s t) (evs.take n) s chk0 c1 (Inv.init t s hwf) h1
+    simp only [installedBy, h1]
+    exact inv.tgt
+
+/-- what a prefix has installed is among what the whole trace installs -/
+theorem installed_by_prefix_subset (t : Path) (evs : List Ev) (h : concSafe t evs = true) (n : Nat) :
+    ∀ v ∈ installedBy t (evs.take n), v ∈ installedBy t evs := by
+  unfold concSafe at h
+  cases hc : chkRun t chk0 evs with
+  | none => rw [hc] at h; exact absurd h (by simp)
+  | some c' =>
+    obtain ⟨c1, h1, h2⟩ := chkRun_take t evs chk0 c' n hc
+    simp only [installedBy, h1, hc]
+    exact h2
+
+/-- every prefix of a protocol-following trace follows the protocol -/
+theorem concSafe_prefix (t : Path) (evs : List Ev) (h : concSafe t evs = true) (n : Nat) :
+    concSafe t (evs.take n) = true := by
+  unfold concSafe at h ⊢
+  cases hc : chkRun t chk0 evs with
+  | none => rw [hc] at h; exact absurd h (by simp)
+  | some c' =>
+    obtain ⟨c1, h1, _⟩ := chkRun_take t evs chk0 c' n hc
+    simp [h1]
+
+/-- **Every schedule of n updates that use pairwise different staging paths follows the protocol**: whatever
+the order in which the kernel serves the operations of the `n` updates `open tmpᵢ; write…; close; rename tmpᵢ target`,
+the interleaved trace satisfies `concSafe`, and the texts it installs are complete texts of these updates. -/
+theorem scheduled_updates_follow_protocol (t : Path) (us : List Upd) (hd : DistinctTmps t us) (sched : List Nat) :
+    concSafe t (interleave t us (fun _ => 0) sched) = true ∧
+    ∀ v ∈ installedBy t (interleave t us (fun _ => 0) sched), ∃ u ∈ us, v = flatten u.chunks := by
+  obtain ⟨c', h1, h2⟩ := interleave_accepted t us hd sched (fun _ => 0) chk0 (rel_init us)
+  constructor
+  · simp [concSafe, h1]
+  · simpa only [installedBy, h1] using h2
+
+/-- **n concurrent updates, every interleaving, every crash point**: with pairwise different staging paths
+(what `uuid.uuid4()` provides) the target always holds the complete previous version or the complete text of
+one of the updates — never a mixture. -/
+theorem interleaved_writers_safe (t : Path) (us : List Upd) (hd : DistinctTmps t us) (s : St) (hwf : WF s)
+    (sched : List Nat) (n : Nat) :
+    content (crun ((interleave t us (fun _ => 0) sched).take n) s) t = content s t ∨
+    ∃ u ∈ us, content (crun ((interleave t us (fun _ => 0) sched).take n) s) t = some (flatten u.chunks) := by
+  obtain ⟨hs, hi⟩ := scheduled_updates_follow_protocol t us hd sched
+  rcases interleaved_atomic_updates_safe t _ s hwf hs n with h | ⟨v, hv, h⟩
+  · exact Or.inl h
+  · obtain ⟨u, hu, e⟩ := hi v (installed_by_prefix_subset t _ hs n v hv)
+    exact Or.inr ⟨u, hu, e ▸ h⟩
+
+/-- the list of crash states the driver reports is the content of the target after every prefix of the trace -/
+theorem crashStates_get (evs : List Ev) : ∀ (s : St) (t : Path) (n : Nat), n ≤ evs.length →
+    (FsConc.crashStates evs s t)[n]? = some (content (crun (evs.take n) s) t) := by
+  induction evs with
+  | nil => intro s t n h; simp only [List.length_nil, Nat.le_zero] at h; subst h; rfl
+  | cons e es ih =>
+    intro s t n h
+    cases n with
+    | zero => rfl
+    | succ n =>
+      unfold FsConc.crashStates
+      simp only [List.getElem?_cons_succ, List.take_succ_cons, crun_cons]
+      exact ih (step s e) t n (by simpa using h)
+
+/-- the initial states handed to the model by the harness are well-formed -/
+theorem initial_state_wf (files : List (Path × Content)) : WF (mkSt files) := mkSt_wf files
+
+/-- a decidable sufficient form of the hypothesis on the staging paths -/
+theorem distinct_tmps_of_nodup (t : Path) (us : List Upd) (h1 : (us.map Upd.tmp).Nodup) (h2 : ∀ u ∈ us, u.tmp ≠ t) :
+    DistinctTmps t us := distinctTmps_of_nodup t us h1 h2
+
+/-- non-vacuity: two updates of different length with different staging paths, one nested inside the other
+(the second runs completely between the `open` and the first `write` of the first): accepted, both installed,
+and the final content is the complete text of the update that renamed last. -/
+example : concSafe ['t'] (interleave ['t'] [⟨['x'], [['a']]⟩, ⟨['y'], [['1'], ['2', '3']]⟩] (fun _ => 0)
+    [0, 1, 1, 1, 1, 1, 0, 0, 0]) = true := by decide
+example : installedBy ['t'] (interleave ['t'] [⟨['x'], [['a']]⟩, ⟨['y'], [['1'], ['2', '3']]⟩] (fun _ => 0)
+    [0, 1, 1, 1, 1, 1, 0, 0, 0]) = [['a'], ['1', '2', '3']] := by decide
+example : content (crun (interleave ['t'] [⟨['x'], [['a']]⟩, ⟨['y'], [['1'], ['2', '3']]⟩] (fun _ => 0)
+    [0, 1, 1, 1, 1, 1, 0, 0, 0]) (mkSt [(['t'], ['o'])])) ['t'] = some ['a'] := by decide
+example : (([⟨['x'], [['a']]⟩, ⟨['y'], [['1'], ['2', '3']]⟩] : List Upd).map Upd.tmp).Nodup := by decide
+/-- the predicate rejects a second `open` of a staging path that is in flight, and a rename of an open file -/
+example : concSafe ['t'] [.openW 0 ['x'], .openW 1 ['x']] = false := by decide
+example : concSafe ['t'] [.openW 0 ['x'], .write 0 ['a'], .rename ['x'] ['t']] = false := by decide
+
+end Concurrent
 
 end St4sd.C14
